@@ -1,4 +1,4 @@
 CONSTANTS Maps <- MCMaps  UMaps <- MCUMaps  Hops <- MCHops  Steps <- MCSteps  NMax = 40
 SPECIFICATION Spec
-INVARIANTS TypeOK ClosedForm Periodic FullRound NeverInvalid
+INVARIANTS TypeOK ClosedForm Periodic FullRound NeverInvalid RemapAgree
 PROPERTIES InMap FullIdentity TableForm
